@@ -56,6 +56,7 @@ func (w *World) caseEdges(g *FG, typ string) []Edge {
 type clusterAnchors struct {
 	agentT, msT                                       *types.Named
 	recv, join, leave, handleMembers, rebuild, bcast  *ssa.Function
+	membersList                                       string // the snapshot list as the members handler sees it: "P1" ([]*Member parameter) or "P1.Members" (*Members parameter)
 	activate, addAct, remAct, hActivation, hDeact     *ssa.Function
 	hTopology, hActReq, hGetActive                    *ssa.Function
 	problems                                          []string
@@ -146,6 +147,14 @@ func (w *World) clusterAnchors() *clusterAnchors {
 		} {
 			if *vh.slot == nil {
 				*vh.slot = w.virtualHandler(a.recv, vh.typ, "(*cluster.Agent)."+vh.name, vh.suffix, vh.param)
+			}
+		}
+	}
+	a.membersList = "P1"
+	if hm := a.handleMembers; hm != nil && !w.isVirtual(hm) && len(hm.Params) == 2 {
+		if pt, ok := hm.Params[1].Type().(*types.Pointer); ok {
+			if n, ok := pt.Elem().(*types.Named); ok && n.Obj().Name() == "Members" {
+				a.membersList = "P1.Members"
 			}
 		}
 	}
@@ -443,8 +452,8 @@ func checkC18(w *World, r *Report) {
 	{
 		g := w.FGI(a.handleMembers)
 		site := w.fnPos(a.handleMembers)
-		joined := "call:(*cluster.MemberSet).Except(call:cluster.NewMemberSet(P1),call:(*cluster.MemberSet).Slice(P0.members))"
-		left := "call:(*cluster.MemberSet).Except(P0.members,P1)"
+		joined := "call:(*cluster.MemberSet).Except(call:cluster.NewMemberSet(" + a.membersList + "),call:(*cluster.MemberSet).Slice(P0.members))"
+		left := "call:(*cluster.MemberSet).Except(P0.members," + a.membersList + ")"
 		check := func(h *ssa.Function, set, what, other string) {
 			key := fmt.Sprintf("%s->%s", fname(a.handleMembers), fname(h))
 			sites := w.callsIn(a.handleMembers, EvCall("h", h))
@@ -499,9 +508,46 @@ func checkC18(w *World, r *Report) {
 	// R2
 	add := w.Method("cluster", "MemberSet", "Add")
 	rem := w.Method("cluster", "MemberSet", "Remove")
-	w.checkRow(r, row{rule: "C18.R2", fn: a.join, callee: EvCall("Add", add), name: "MemberSet.Add", args: []string{"P0.members", "P1"}, why: "A joining member is not added to the view."})
+	// the view changes in the handler, or in the loop that calls it, right before the call and with the same member
+	callerSide := func(h *ssa.Function, op *ssa.Function, name, why string) bool {
+		if h == nil || op == nil || len(w.callsIn(h, EvCall(name, op))) > 0 || w.isVirtual(a.handleMembers) {
+			return false
+		}
+		g := w.FGI(a.handleMembers)
+		hs := w.callsIn(a.handleMembers, EvCall("h", h))
+		os := w.callsIn(a.handleMembers, EvCall(name, op))
+		key := fmt.Sprintf("%s->%s", fname(h), name)
+		what := fmt.Sprintf("%s(P0.members, m) happens for the member m handed to %s, immediately before that call", name, fname(h))
+		if len(hs) != 1 || len(os) != 1 || callKind(hs[0]) != "call" || callKind(os[0]) != "call" {
+			return false
+		}
+		hn, on := g.idx[hs[0].(ssa.Instruction)], g.idx[os[0].(ssa.Instruction)]
+		oa, ha := os[0].Common().Args, hs[0].Common().Args
+		ok := len(oa) == 2 && len(ha) == 2 && w.pathOf(oa[0]) == "P0.members" && w.pathOf(oa[1]) == w.pathOf(ha[1]) &&
+			g.After(on, setOf(len(g.ins), hn)) && g.Before(setOf(len(g.ins), on), hn)
+		if ok {
+			// nothing of the machine runs between the two: no other call separates the change from the handler
+			between := g.reach(g.succ[on], setOf(len(g.ins), hn), nil)
+			for i, in := range g.ins {
+				if between[i] && i != hn && callOf(in) != nil && !g.inl[i] {
+					if c := callOf(in); c.StaticCallee() == nil || w.isLib(c.StaticCallee()) {
+						ok = false
+					}
+				}
+			}
+		}
+		r.Check(ok, "C18.R2", key, what, w.pos(os[0].Pos()), why)
+		return true
+	}
+	addInCaller := callerSide(a.join, add, "MemberSet.Add", "A joining member is not added to the view.")
+	if !addInCaller {
+		w.checkRow(r, row{rule: "C18.R2", fn: a.join, callee: EvCall("Add", add), name: "MemberSet.Add", args: []string{"P0.members", "P1"}, why: "A joining member is not added to the view."})
+	}
 	w.checkRow(r, row{rule: "C18.R2", fn: a.join, callee: w.evBroadcast("cluster", "MemberJoinEvent"), name: "BroadcastEvent(MemberJoinEvent)", args: []string{"P0.cluster.engine", "lit:MemberJoinEvent{Member=P1}"}, why: "No (or a wrong, or a second) MemberJoinEvent for a joining member."})
-	w.checkRow(r, row{rule: "C18.R2", fn: a.leave, callee: EvCall("Remove", rem), name: "MemberSet.Remove", args: []string{"P0.members", "P1"}, why: "A leaving member stays in the view."})
+	removeInCaller := callerSide(a.leave, rem, "MemberSet.Remove", "A leaving member stays in the view.")
+	if !removeInCaller {
+		w.checkRow(r, row{rule: "C18.R2", fn: a.leave, callee: EvCall("Remove", rem), name: "MemberSet.Remove", args: []string{"P0.members", "P1"}, why: "A leaving member stays in the view."})
+	}
 	w.checkRow(r, row{rule: "C18.R2", fn: a.leave, callee: w.evBroadcast("cluster", "MemberLeaveEvent"), name: "BroadcastEvent(MemberLeaveEvent)", args: []string{"P0.cluster.engine", "lit:MemberLeaveEvent{Member=P1}"}, why: "No (or a wrong, or a second) MemberLeaveEvent for a leaving member."})
 	{
 		// join extends kinds from m.Kinds
@@ -628,13 +674,18 @@ func checkC18(w *World, r *Report) {
 			}
 		}
 		okR := anyOf(R) && anyOf(B)
+		if removeInCaller {
+			// the removal was verified at the call site of the leave handler (right before the call): the rebuild
+			// only has to happen on every path of the handler
+			okR = anyOf(B) && lg.AfterEntry(B)
+		}
 		for _, n := range members(R) {
 			if !lg.After(n, B) {
 				okR = false
 			}
 		}
 		for _, n := range members(B) {
-			if !lg.Before(R, n) {
+			if !removeInCaller && !lg.Before(R, n) {
 				okR = false
 			}
 		}
@@ -706,6 +757,9 @@ func checkC18(w *World, r *Report) {
 				}
 			}
 		}
+		if clr && !readd {
+			readd = rebuildByRange(w, rg)
+		}
 		r.Check(clr && readd, "C18.R2", "(*cluster.Agent).rebuildKinds:clear-and-readd", "rebuild clears kinds and re-adds the kinds of every remaining member", w.fnPos(a.rebuild), "kinds is not recomputed from the whole remaining view")
 		}
 	}
@@ -732,6 +786,9 @@ r3:
 		}
 		delete(mw, a.join)
 		delete(mw, a.leave)
+		if addInCaller || removeInCaller {
+			delete(mw, a.handleMembers) // verified above: the change sits right before the handler call, with its member
+		}
 		r.Check(len(mw) == 0, "C18.R3", "Agent.members:writers", "only the join and leave handlers change the member set", w.fnPos(a.join), fmt.Sprintf("other writers: %v", fnNames(mw)))
 		kw := map[*ssa.Function]bool{}
 		for f := range w.mapWriters("cluster", a.agentT, "kinds") {
@@ -1582,7 +1639,7 @@ func checkC19(w *World, r *Report) {
 			arg string
 		}
 		for _, c := range []cs{
-			{"*cluster.Members", a.handleMembers, "#0.Members"}, {"*cluster.Activation", a.hActivation, "#0"}, {"*cluster.Deactivation", a.hDeact, "#0"},
+			{"*cluster.Members", a.handleMembers, map[string]string{"P1": "#0.Members", "P1.Members": "#0"}[a.membersList]}, {"*cluster.Activation", a.hActivation, "#0"}, {"*cluster.Deactivation", a.hDeact, "#0"},
 			{"*cluster.ActorTopology", a.hTopology, "#0"}, {"*cluster.ActivationRequest", a.hActReq, "#0"}, {"cluster.getActive", a.hGetActive, "#0"},
 			{"cluster.activate", a.activate, ""},
 		} {
@@ -2529,4 +2586,92 @@ func checkActivationTable(w *World, r *Report, a *clusterAnchors) {
 		r.Check(okL, "C19.R2", fname(a.leave)+":purges-host", "when a member leaves, every activation whose PID address is the member's host is removed", w.fnPos(a.leave),
 			"activations hosted on the departed member stay resolvable on the remaining members")
 	}
+}
+
+// rebuildByRange: the rebuild written as a plain range over the view's map: after the clear, every remaining member is
+// visited (the loop is left only when the map is exhausted) and each of its kinds is recorded unless already there.
+func rebuildByRange(w *World, g *FG) bool {
+	NX := make([]bool, len(g.ins))
+	C := make([]bool, len(g.ins))
+	U := make([]bool, len(g.ins))
+	var nexts []*ssa.Next
+	for i, in := range g.ins {
+		switch x := in.(type) {
+		case *ssa.Next:
+			if strings.Contains(w.pathOf(x), "range(P0.members.members)") {
+				NX[i] = true
+				nexts = append(nexts, x)
+			}
+		case *ssa.MapUpdate:
+			if w.pathOf(x.Map) == "P0.kinds" {
+				if !strings.HasPrefix(w.pathOf(x.Key), "next(range(P0.members.members))#2.Kinds[") || w.pathOf(x.Value) != "K:true" {
+					return false
+				}
+				U[i] = true
+			}
+		}
+		if c := callOf(in); c != nil && len(c.Args) > 0 && w.pathOf(c.Args[0]) == "P0.kinds" {
+			if f := c.StaticCallee(); f != nil && strings.Contains(f.String(), "maps.Clear") {
+				C[i] = true
+			}
+			if bi, isB := c.Value.(*ssa.Builtin); isB && bi.Name() == "clear" {
+				C[i] = true
+			}
+		}
+	}
+	if len(nexts) != 1 || !anyOf(U) || !anyOf(C) {
+		return false
+	}
+	nx := g.idx[nexts[0]]
+	if !g.Before(C, nx) || !g.AfterEntry(NX) {
+		return false
+	}
+	// the member loop is left only when the map is exhausted
+	more, _ := g.CondEdges(func(v ssa.Value) (bool, bool) {
+		e, ok := v.(*ssa.Extract)
+		return true, ok && e.Index == 0 && e.Tuple == ssa.Value(nexts[0])
+	})
+	if len(more) == 0 {
+		return false
+	}
+	for _, e := range more {
+		rr := g.reach([]int{e.to}, NX, nil)
+		for _, x := range g.returns {
+			if rr[x] {
+				return false
+			}
+		}
+	}
+	// every kind of the member: an iteration of the inner loop records the kind or finds it known
+	bound, _ := g.CondEdges(func(v ssa.Value) (bool, bool) {
+		b, ok := v.(*ssa.BinOp)
+		return true, ok && b.Op == token.LSS && w.pathOf(b.Y) == "len(next(range(P0.members.members))#2.Kinds)"
+	})
+	if len(bound) == 0 {
+		return false
+	}
+	known, absent := w.lookupEdges(g, "P0.kinds")
+	if len(known) > 0 {
+		for _, u := range members(U) {
+			if !g.OnlyVia(absent, u) {
+				return false
+			}
+		}
+	}
+	cut := map[Edge]bool{}
+	for _, e := range known {
+		cut[e] = true
+	}
+	for _, e := range bound {
+		rr := g.reach([]int{e.to}, U, cut)
+		if rr[e.from] || rr[nx] {
+			return false
+		}
+		for _, x := range g.returns {
+			if rr[x] {
+				return false
+			}
+		}
+	}
+	return true
 }
